@@ -70,7 +70,11 @@ from zoneinfo import ZoneInfo
 from flow.record import RecordDescriptor, RecordStreamWriter, RecordWriter
 from flow.record.jsonpacker import JsonRecordPacker
 D = RecordDescriptor("t/disp", [("datetime", "ts"), ("datetime[]", "tl"), ("string", "s")])
-vals = [dt.datetime(2021, 10, 31, 2, 30, tzinfo=ZoneInfo("Europe/Amsterdam")), dt.datetime(2020, 1, 1, 12, 0, 0, 5), dt.datetime(1969, 1, 1, tzinfo=dt.timezone(dt.timedelta(hours=-8))), None]
+vals = [dt.datetime(2021, 10, 31, 2, 30, tzinfo=ZoneInfo("Europe/Amsterdam")), dt.datetime(2020, 1, 1, 12, 0, 0, 5), dt.datetime(1969, 1, 1, tzinfo=dt.timezone(dt.timedelta(hours=-8))), None,
+        # the edges of the year range: converting these to a display zone with a non-zero offset overflows, so anything that
+        # formats a record on the way to storage shows up as a failure that depends on the setting
+        dt.datetime(1, 1, 1, tzinfo=dt.timezone.utc), dt.datetime(1, 1, 1, 3, 0, 0, 1, tzinfo=dt.timezone(dt.timedelta(hours=1))),
+        dt.datetime(9999, 12, 31, 23, 59, 59, 999999, tzinfo=dt.timezone.utc), dt.datetime(9999, 12, 31, 20, tzinfo=dt.timezone(dt.timedelta(hours=-3)))]
 recs = [D(v, [v] if v else [], "x", _generated=dt.datetime(2020, 2, 2, tzinfo=dt.timezone.utc)) for v in vals]
 b = io.BytesIO(); w = RecordStreamWriter(b)
 for r in recs: w.write(r)
